@@ -60,6 +60,13 @@ def campaign(ctx, rng, ncases, only=None):
         ver = rng.choice(["fo4", "fo4", "fo76"])
         lines.append(f"c17.refit mesh:{ver}:{nv}:{nt}:{rng.randrange(1, 10**6)}:n 0 {fmt_inf(inf)} {','.join(map(str, labels))} "
                      f"{','.join(map(str, dele))}")
+    # the SSE-style segment array (no sub-segments) goes through the same loops
+    for _ in range(0 if only else max(10, ncases // 5)):
+        nt = rng.choice([3, 7, 30, 120])
+        nv = max(4, nt // 2 + 3)
+        dele = sorted(rng.sample(range(nv), rng.randrange(1, max(2, nv // 4))))
+        lines.append(f"c17.refit mesh:{rng.choice(['fo4', 'fo76'])}:{nv}:{nt}:{rng.randrange(1, 10**6)}:n 0 sseg:{rng.randrange(1, 6)} - "
+                     f"{','.join(map(str, dele))}")
     from props import filecamp
     if only:
         lines = [only]
@@ -91,6 +98,14 @@ def campaign(ctx, rng, ncases, only=None):
             st["partition_failures"] += 1
             viol.append(("oracle", f"after the vertex deletion the segments no longer partition the {nt1} triangles: {w} "
                                    f"(ranges before {kv['pre'][:120]}, removed triangles {kv['ids'][:80]}, after {kv['post'][:120]})", lines[i]))
+        sse_pre, sse_post = parse_segs(kv.get("ssepre", "-")), parse_segs(kv.get("ssepost", "-"))
+        if sse_pre:
+            st["with_sse_segments"] = st.get("with_sse_segments", 0) + 1
+            w2 = tiles(sse_post, nt1) if not tiles(sse_pre, nt0) else None
+            if w2:
+                st["partition_failures"] += 1
+                viol.append(("oracle", f"after the vertex deletion the SSE segment array no longer partitions the {nt1} triangles: {w2} "
+                                       f"(before {kv['ssepre'][:120]}, removed triangles {kv['ids'][:80]}, after {kv['ssepost'][:120]})", lines[i]))
         # hypotheses of Props/SegRefit.lean on what the library produced
         hyp = None
         if any(a <= b for a, b in zip(ids, ids[1:])):
